@@ -884,6 +884,13 @@ func (s *Session) closeSession() error {
 	return intstream.Close(s.Conn(), &s.out.Info)
 }
 
+// outputClosed reports whether the output stream has been closed.
+func (s *Session) outputClosed() bool {
+	s.stateMutex.RLock()
+	defer s.stateMutex.RUnlock()
+	return s.state&OutputStreamClosed == OutputStreamClosed
+}
+
 // State returns the current state of the session. For more information, see the
 // SessionState type.
 func (s *Session) State() SessionState {
@@ -935,6 +942,9 @@ func (s *Session) Encode(ctx context.Context, v interface{}) error {
 	verifYield("encode.enter", "")
 	s.out.Lock()
 	defer s.out.Unlock()
+	if s.outputClosed() {
+		return ErrOutputStreamClosed
+	}
 
 	defer setWriteDeadline(ctx, s.conn)()
 	return marshal.EncodeXML(s.out.e, v)
@@ -948,6 +958,9 @@ func (s *Session) EncodeElement(ctx context.Context, v interface{}, start xml.St
 	verifYield("encode.enter", "")
 	s.out.Lock()
 	defer s.out.Unlock()
+	if s.outputClosed() {
+		return ErrOutputStreamClosed
+	}
 
 	defer setWriteDeadline(ctx, s.conn)()
 	return marshal.EncodeXMLElement(s.out.e, v, start)
@@ -972,6 +985,9 @@ func send(ctx context.Context, s *Session, r xml.TokenReader, start *xml.StartEl
 	verifYield("send.enter", "")
 	s.out.Lock()
 	defer s.out.Unlock()
+	if s.outputClosed() {
+		return ErrOutputStreamClosed
+	}
 
 	defer setWriteDeadline(ctx, s.conn)()
 
